@@ -1,7 +1,9 @@
 SPECIFICATION Spec
 CONSTANTS
+  MaxRuns = 2
+  ReuseStaleTemp = FALSE
   Scenarios <- MCScenarios
   MaxFiles = 3
-INVARIANTS Atomic LaterUntouched EarlierDone NoTempAfterErrReturn SuccessMeansAll RefusedBeforeModify LeftoverOnlyByCrash
+INVARIANTS Atomic LaterUntouched EarlierDone NoTempAfterErrReturn SuccessMeansAll RefusedBeforeModify LeftoverOnlyByCrash FreshTemp
 PROPERTY RenameOnlyComplete
 CHECK_DEADLOCK TRUE
